@@ -3108,7 +3108,7 @@ func (a *Agent) TaskDispatch(RequestID uint32, CommandID uint32, Parser *parser.
 								Reason   = Parser.ParseInt32()
 							)
 
-							if len(a.Downloads) > 0 {
+							if a.DownloadCount() > 0 {
 								var download = a.DownloadGet(FileID)
 								if download != nil {
 									FileName = download.FilePath
